@@ -420,6 +420,10 @@ def _inline_family(bodies, lookup, known, roots):
                 c = lookup(cal)
                 if c is None or c is b or id(c) in stack or not _eligible(c, known):
                     continue
+                # only helpers living in the caller's own source file: a new method on ANOTHER type is a unit of
+                # its own (its type's rules apply to it as such), not a piece cut out of the caller
+                if (c.get('span') or '').split(':')[0] != (b.get('span') or '').split(':')[0]:
+                    continue
                 if c['arg_count'] != len(t['args']):
                     continue
                 process(c, stack)
